@@ -63,6 +63,31 @@ DESC = {
  'C11b_m1': ('C11', 'history serialised through an unflushed BufWriter: rename before write', 'kill between the rename and the write'),
  'C11b_m2': ('C11', 'cache/ and history/ created only with .ruler', 'as C11_m1'),
  'C11b_m3': ('C11', 'leftover current_file_states.tmp promoted before reading', 'kill during a table save after the temp file was created'),
+
+ 'C03b_m1': ('C03', 'tickets from the history sent to dependents before the targets are recovered', 'build, clean, edit another source of the dependent, build; dependent scheduled before the restore'),
+ 'C03b_m2': ('C03', 'final_index numbered per origin: dependents wired to the wrong rule', 'build-all where a rule with dependents is first reached from a second origin'),
+ 'C03b_m3': ('C03', 'only the last script line decides success', 'multi-line command with a failing non-final line'),
+ 'C04b_m1': ('C04', 'only the last script line decides success', 'as C04_m1'),
+ 'C04b_m2': ('C04', 'stale target not moved away when the cache already holds its content', 'two targets with identical content; the second rule stops producing its target'),
+ 'C04b_m3': ('C04', 'errors with equal text collected once', 'as C04_m2'),
+ 'C07b_m1': ('C07', 'timestamp == becomes <=', 'as C07_m1'),
+ 'C07b_m2': ('C07', 'refresh_timestamps pairs a stale ticket with the live mtime of AlreadyCorrect targets', 'build, edit, build, revert, build, build, edit, build'),
+ 'C07b_m3': ('C07', 'clean files a recorded target under the recorded ticket', 'build, hand-edit the target, clean'),
+ 'C09b_m1': ('C09', 'failed restore rename falls back to a copy through <target>.tmp', 'injected rename fault at the restore'),
+ 'C09b_m2': ('C09', 'goal-less clean sweeps everything still recorded in the table', 'build, delete a rule / drop a source, clean'),
+ 'C09b_m3': ('C09', 'goal matched as a string prefix of targets', 'goal whose name is a prefix of a target of an unrelated rule'),
+ 'C10b_m1': ('C10', 'clean skips a rule unless all of its targets exist', 'multi-target rule with one target missing at clean'),
+ 'C10b_m2': ('C10', 'recovered file gets the remembered (always false) executable bit', 'as C10_m1'),
+ 'C10b_m3': ('C10', 'clean uses the recorded ticket without checking the file', 'build, target changed by hand, clean'),
+ 'C17b_m1': ('C17', 'get_actual_file_state: == becomes <=', 'command that preserves mtimes of older inputs (cp -p)'),
+ 'C17b_m2': ('C17', 'contradicting paths taken with Vec::remove', 'as C17_m1'),
+ 'C17b_m3': ('C17', 'failed rule no longer sends cancel to its dependents', 'the contradicting rule is a source of another rule'),
+ 'C18b_m1': ('C18', 'clean uses the recorded ticket as is', 'build, hand-edit target, clean, build'),
+ 'C18b_m2': ('C18', 'take_blob keeps entries, insert_blob skips empty states', 'as C18_m2'),
+ 'C18b_m3': ('C18', 'table saved only when no rule failed', 'tick clock: same-mtime restore in a failing build, then build'),
+ 'C20b_m1': ('C20', 'one banner per rule: first target status for all targets', 'multi-target rule with mixed resolutions, no command run'),
+ 'C20b_m2': ('C20', 'only the last script line decides failure', 'as C20_m1'),
+ 'C20b_m3': ('C20', 'failures sorted and de-duplicated by message', 'two rules failing with the same message'),
 }
 rows = []
 for d in sorted(glob.glob('/verif/seeded/*/')):
